@@ -317,8 +317,7 @@ def c01_streams(tier, rng):
             StreamSet("scale", "asan", scale_cases(tier, rng, scale_ops_roundtrip), timeout=600),
             StreamSet("full-tables", "asan", full_table_cases(tier, rng), timeout=600),
             StreamSet("fm-layer", "asan", fm_cases(tier, rng, 24 if tier == "thorough" else 6), phase2=fm_phase2, timeout=90),
-            StreamSet("rpfc-layer", "asan", rpfc_cases(tier, rng, 24 if tier == "thorough" else 6), phase2=rpfc_phase2, timeout=90),
-            StreamSet("blocks-image", "asan", blkimg_cases(tier, rng, 30 if tier == "thorough" else 10), phase2=blkimg_phase2, timeout=90)]
+            StreamSet("rpfc-layer", "asan", rpfc_cases(tier, rng, 24 if tier == "thorough" else 6), phase2=rpfc_phase2, timeout=90)]
 
 
 PROPS["C01"] = PropSpec(
@@ -421,7 +420,8 @@ def c06_streams(tier, rng):
             StreamSet("reload-every-size", "asan", sweep_cases(tier, rng), timeout=900),
             StreamSet("rpdac-image", "asan", [c for c in rpdac_cases(tier, rng, 30 if tier == "thorough" else 10) if c[2] in ("RPDAC", "HASHRPDAC")],
                       phase2=rpdac_phase2, timeout=60),
-            StreamSet("rpfc-layer", "asan", rpfc_cases(tier, rng, 24 if tier == "thorough" else 6), phase2=rpfc_phase2, timeout=90)]
+            StreamSet("rpfc-layer", "asan", rpfc_cases(tier, rng, 24 if tier == "thorough" else 6), phase2=rpfc_phase2, timeout=90),
+            StreamSet("blocks-image", "asan", blkimg_cases(tier, rng, 30 if tier == "thorough" else 10), phase2=blkimg_phase2, timeout=90)]
 
 
 def c08_ops(kind, pv, S, r):
